@@ -173,6 +173,12 @@ func (s *Spec) Packages() []string {
 	return ps
 }
 
+// MID is a file-name-safe identifier of the target that is unique in the workspace (target
+// names alone are not: //a:build and //p:build may both exist).
+func (t *Target) MID() string {
+	return strings.NewReplacer("/", "-").Replace(t.Pkg) + "." + t.Name
+}
+
 func shq(s string) string { return "'" + strings.ReplaceAll(s, "'", `'\''`) + "'" }
 
 // Command renders the command text of a target.
